@@ -19,6 +19,7 @@ import (
 
 	"github.com/jotaen/klog/klog/parser"
 	kjson "github.com/jotaen/klog/klog/parser/json"
+	"github.com/jotaen/klog/klog/parser/txt"
 )
 
 const cwdPrefix = "/proc/self/cwd/"
@@ -62,15 +63,20 @@ func jsonoutEnv(dir string) *cliEnv {
 
 // the parser's own error list of one file: `_` when valid, else line:pos:len:code:hextext joined by commas
 func ownErrors(text string) string {
+	s, _ := ownErrorList(text)
+	return s
+}
+
+func ownErrorList(text string) (string, []txt.Error) {
 	_, _, errs := parser.NewSerialParser().Parse(text)
 	if errs == nil {
-		return "_"
+		return "_", nil
 	}
 	out := make([]string, len(errs))
 	for i, e := range errs {
 		out[i] = showErr(e)
 	}
-	return strings.Join(out, ",")
+	return strings.Join(out, ","), errs
 }
 
 func jsonRun(pretty string, pairs []string) string {
@@ -83,13 +89,16 @@ func jsonRun(pretty string, pairs []string) string {
 			args = append(args, "--pretty")
 		}
 		var own []string
+		var ownErrs []txt.Error
 		for i := 0; i < len(pairs); i += 2 {
 			path, text := argBytes(pairs[i]), argBytes(pairs[i+1])
 			if !placeFile(dir, path, text) {
 				return "?bad-path " + pairs[i]
 			}
 			args = append(args, path)
-			own = append(own, ownErrors(text))
+			s, es := ownErrorList(text)
+			own = append(own, s)
+			ownErrs = append(ownErrs, es...)
 		}
 		code, out, errText := runSafely(jsonoutEnv(dir), args...)
 		if code == -1 {
@@ -98,7 +107,7 @@ func jsonRun(pretty string, pairs []string) string {
 		if code != 0 {
 			return "fail " + strconv.Itoa(code) + " " + hx(errText)
 		}
-		return "ok " + strconv.Itoa(code) + " " + hx(out) + " " + strings.Join(own, "/")
+		return "ok " + strconv.Itoa(code) + " " + hx(pinJSONWording(out, ownErrs)) + " " + strings.Join(own, "/")
 	})
 }
 
@@ -113,7 +122,7 @@ func init() {
 		for i, e := range errs {
 			errs[i] = e.SetOrigin(origin)
 		}
-		out := kjson.ToJson(rs, errs, a[0] == "1")
+		out := pinJSONWording(kjson.ToJson(rs, errs, a[0] == "1"), errs)
 		return "ok 0 " + hx(out+"\n") + " " + ownErrors(text)
 	})
 
@@ -137,7 +146,8 @@ func init() {
 			if jcode != 0 {
 				return "crash-json " + strconv.Itoa(jcode)
 			}
-			return "ok " + strconv.Itoa(code) + " " + hx(errText) + " " + hx(jout)
+			_, es := ownErrorList(text)
+			return "ok " + strconv.Itoa(code) + " " + hx(pinTerminalWording(errText, es)) + " " + hx(pinJSONWording(jout, es))
 		})
 	})
 
